@@ -170,7 +170,9 @@ static void subsets(size_t n, size_t maxk, std::vector<std::vector<int> > &out)
 }
 
 struct Msgs { std::vector<std::string> val, name; };
-static Msgs messages(const Grp &G, uint64_t seed)
+// scheme DSS: the seeded "hash values" are truncated to |q| bits (leftmost bits, as FIPS 186-4 prescribes): DSS::Sign evaluates
+// g^m with a table that covers |q| bits only and ends by exception for longer m (see props/C16.json assumptions)
+static Msgs messages(const Grp &G, uint64_t seed, int scheme)
 {
 	Msgs M;
 	mpz_t x;
@@ -183,10 +185,12 @@ static Msgs messages(const Grp &G, uint64_t seed)
 	uint64_t st = seed * 0x9e3779b97f4a7c15ULL + 16;
 	mpz_set_ui(x, 0L);
 	for (int k = 0; k < 4; k++) { mpz_mul_2exp(x, x, 64); mpz_add_ui(x, x, (unsigned long)mcenv::splitmix(st)); }
+	mpz_setbit(x, 255);
+	if (scheme == DSS) mpz_tdiv_q_2exp(x, x, 256 - mpz_sizeinbase(G.q, 2L));
 	M.val.push_back(dec(x)), M.name.push_back("seeded");
-	mpz_add_ui(x, x, 12345L);
+	mpz_sub_ui(x, x, 12345L);
 	M.val.push_back(dec(x)), M.name.push_back("seeded2");
-	mpz_add_ui(x, x, 12345L);
+	mpz_sub_ui(x, x, 12345L);
 	M.val.push_back(dec(x)), M.name.push_back("seeded3");
 	mpz_clear(x);
 	return M;
@@ -211,7 +215,7 @@ static void family_nts(const Grp *G, bool thorough)
 		for (size_t n = 3; n <= 7; n++)
 			for (size_t t = 0; 3 * t < n; t++) nts.push_back(NT(n, t));
 	}
-	Msgs M = messages(G[0], g_seed);
+	Msgs M = messages(G[0], g_seed, NTS);
 	for (size_t c = 0; c < nts.size() && !g_stop; c++)
 	{
 		Cfg base;
@@ -297,7 +301,7 @@ static void family_dss(const Grp *G, bool thorough)
 	std::vector<NT> nts;
 	nts.push_back(NT(4, 1));
 	if (thorough) { nts.push_back(NT(5, 1)), nts.push_back(NT(7, 2)); }
-	Msgs M = messages(G[0], g_seed);
+	Msgs M = messages(G[0], g_seed, DSS);
 	for (size_t c = 0; c < nts.size() && !g_stop; c++)
 	{
 		Cfg base;
@@ -374,7 +378,6 @@ static void family_msg(const Grp *G, bool thorough)
 {
 	for (int gi = 0; gi < 2 && !g_stop; gi++)
 	{
-		Msgs M = messages(G[gi], g_seed);
 		std::vector<NT> nts;
 		nts.push_back(NT(3, 0));
 		if (gi == 0 || thorough) nts.push_back(NT(4, 1));
@@ -383,6 +386,7 @@ static void family_msg(const Grp *G, bool thorough)
 			for (int scheme = 0; scheme < 2; scheme++)
 				for (int wf = 0; wf < 2; wf++)
 				{
+					Msgs M = messages(G[gi], g_seed, scheme);
 					Cfg C;
 					C.scheme = scheme, C.gi = gi, C.G = &G[gi], C.n = nts[c].first, C.t = nts[c].second;
 					if (wf && C.t == 0) continue;
@@ -442,7 +446,7 @@ static void family_verify(const Grp *G, bool thorough)
 		for (int scheme = 0; scheme < 2 && !g_stop; scheme++)
 		{
 			const Grp &Gr = G[gi];
-			Msgs M = messages(Gr, g_seed);
+			Msgs M = messages(Gr, g_seed, scheme);
 			Cfg C;
 			C.scheme = scheme, C.gi = gi, C.G = &Gr, C.n = 3, C.t = 0;
 			C.msgs.push_back(M.val[5]), C.mnames.push_back("catalogue");
